@@ -130,6 +130,61 @@ func beWritesOf(fn *ssa.Function) []beWrite {
 	return out
 }
 
+// withHelpers: fn and the functions of package zap it calls statically (two
+// levels), so that a record written or read by an extracted helper is still
+// seen as part of fn. Functions that are anchors of their own are left out.
+func withHelpers(p *Program, fn *ssa.Function) []*ssa.Function {
+	seen := map[*ssa.Function]bool{fn: true}
+	out := []*ssa.Function{fn}
+	level := []*ssa.Function{fn}
+	for depth := 0; depth < 2; depth++ {
+		var next []*ssa.Function
+		for _, f := range level {
+			for _, cs := range callSites(f) {
+				g := staticCallee(cs)
+				if g == nil || seen[g] || !p.InZap(g) || len(g.Blocks) == 0 {
+					continue
+				}
+				if _, pinned := pinnedSigs[fnKey(g)]; pinned && g.Parent() == nil {
+					// a function the pinned tree already had is not a helper
+					// extracted from fn; its records are judged where they were
+					continue
+				}
+				seen[g] = true
+				out = append(out, g)
+				next = append(next, g)
+			}
+		}
+		level = next
+	}
+	return out
+}
+
+func beWritesDeep(p *Program, fn *ssa.Function) []beWrite {
+	var out []beWrite
+	for _, f := range withHelpers(p, fn) {
+		out = append(out, beWritesOf(f)...)
+	}
+	return out
+}
+
+func beReadsDeep(p *Program, fn *ssa.Function) []beRead {
+	var out []beRead
+	for _, f := range withHelpers(p, fn) {
+		out = append(out, beReadsOf(f)...)
+	}
+	return out
+}
+
+func strideAddedDeep(p *Program, fn *ssa.Function, k int) bool {
+	for _, f := range withHelpers(p, fn) {
+		if strideAdded(f, k) {
+			return true
+		}
+	}
+	return false
+}
+
 func widthsOfWrites(ws []beWrite) []int {
 	var out []int
 	for _, w := range ws {
@@ -169,7 +224,7 @@ func ruleR27() *Rule {
 			// ---- 1. field table ----------------------------------------------------
 			props := []string{"C09", "C04"}
 			if pfs := c.fn("persistFieldsSection"); pfs != nil {
-				ws := beWritesOf(pfs)
+				ws := beWritesDeep(c.p, pfs)
 				got := widthsOfWrites(ws)
 				allBE := true
 				for _, w := range ws {
@@ -182,7 +237,7 @@ func ruleR27() *Rule {
 					fmt.Sprintf("fixed-width writes have widths %v (big endian: %v); v16 has [2 8 8]", got, allBE))
 			}
 			if lfn := c.method("SegmentBase", "loadFieldNew"); lfn != nil {
-				rs := beReadsOf(lfn)
+				rs := beReadsDeep(c.p, lfn)
 				ok2, ok8 := false, false
 				var desc []string
 				for _, r := range rs {
@@ -194,13 +249,13 @@ func ruleR27() *Rule {
 						ok8 = true
 					}
 				}
-				c.add2(len(rs) == 2 && ok2 && ok8 && strideAdded(lfn, 2) && strideAdded(lfn, 8), props, "field-table/reader", c.fpos(lfn),
+				c.add2(len(rs) == 2 && ok2 && ok8 && strideAddedDeep(c.p, lfn, 2) && strideAddedDeep(c.p, lfn, 8), props, "field-table/reader", c.fpos(lfn),
 					"loadFieldNew reads each (section type, address) pair as u16 + u64 big endian and advances by 2 and 8",
-					"reads: "+strings.Join(desc, ", ")+fmt.Sprintf("; stride 2 present: %v, stride 8 present: %v", strideAdded(lfn, 2), strideAdded(lfn, 8)))
+					"reads: "+strings.Join(desc, ", ")+fmt.Sprintf("; stride 2 present: %v, stride 8 present: %v", strideAddedDeep(c.p, lfn, 2), strideAddedDeep(c.p, lfn, 8)))
 			}
 			if lf := c.method("SegmentBase", "loadFieldsNew"); lf != nil {
-				rs := beReadsOf(lf)
-				okc := len(rs) == 1 && rs[0].width == 8 && rs[0].sliceWidth == 8 && strideAdded(lf, 8)
+				rs := beReadsDeep(c.p, lf)
+				okc := len(rs) == 1 && rs[0].width == 8 && rs[0].sliceWidth == 8 && strideAddedDeep(c.p, lf, 8)
 				c.add2(okc, props, "fields-index/reader", c.fpos(lf), "loadFieldsNew reads each field record offset as u64 big endian with stride 8", fmt.Sprintf("%d fixed-width reads", len(rs)))
 			}
 			// ---- 2. stored-document index ----------------------------------------
@@ -216,25 +271,25 @@ func ruleR27() *Rule {
 				if fn == nil {
 					continue
 				}
-				ws := beWritesOf(fn)
+				ws := beWritesDeep(c.p, fn)
 				okc := len(ws) == 1 && ws[0].width == 8 && ws[0].be
 				nw++
 				c.add2(okc, props, "stored-index/writer/"+name, c.fpos(fn), name+" writes each stored-document offset as one u64 big endian", fmt.Sprintf("fixed-width writes: %v", widthsOfWrites(ws)))
 			}
 			if g := c.method("SegmentBase", "getDocStoredOffsets"); g != nil {
-				rs := beReadsOf(g)
-				okc := len(rs) == 1 && rs[0].width == 8 && rs[0].sliceWidth == 8 && strideAdded(g, 8)
+				rs := beReadsDeep(c.p, g)
+				okc := len(rs) == 1 && rs[0].width == 8 && rs[0].sliceWidth == 8 && strideAddedDeep(c.p, g, 8)
 				c.add2(okc, props, "stored-index/reader", c.fpos(g), "getDocStoredOffsets reads entry docNum of the stored index as u64 big endian at storedIndexOffset + 8*docNum", fmt.Sprintf("%d fixed-width reads", len(rs)))
 			}
 			if cs := c.method("SegmentBase", "copyStoredDocs"); cs != nil {
-				rs := beReadsOf(cs)
-				okc := len(rs) == 1 && rs[0].width == 8 && rs[0].sliceWidth == 8 && strideAdded(cs, 8)
+				rs := beReadsDeep(c.p, cs)
+				okc := len(rs) == 1 && rs[0].width == 8 && rs[0].sliceWidth == 8 && strideAddedDeep(c.p, cs, 8)
 				c.add2(okc, []string{"C09", "C05"}, "stored-index/copy-reader", c.fpos(cs), "copyStoredDocs walks the input's stored index as u64 big endian entries with stride 8", fmt.Sprintf("%d fixed-width reads", len(rs)))
 			}
 			// ---- 3. doc-value trailer --------------------------------------------
 			props = []string{"C09", "C03"}
 			if w := c.method("chunkedContentCoder", "Write"); w != nil {
-				ws := beWritesOf(w)
+				ws := beWritesDeep(c.p, w)
 				okc := len(ws) == 2 && ws[0].width == 8 && ws[1].width == 8
 				// order: first the length of the chunk-offset table (a difference), then the number of chunks (a len)
 				if okc {
@@ -257,7 +312,7 @@ func ruleR27() *Rule {
 					fmt.Sprintf("fixed-width writes: %v", widthsOfWrites(ws)))
 			}
 			if r := c.method("SegmentBase", "loadFieldDocValueReader"); r != nil {
-				rs := beReadsOf(r)
+				rs := beReadsDeep(c.p, r)
 				okc := len(rs) == 2
 				var roles []string
 				for _, x := range rs {
